@@ -10,13 +10,17 @@ Val(k) == k + 100                \* the value inserted / assigned for key k
 
 Present(mm) == {k \in DOMAIN mm : mm[k] # Absent}
 
-Legal(op, mm) == op.name = "insert" => mm[op.k] = Absent     \* insert is documented for absent keys only
+Legal(op, mm) ==
+  /\ op.name = "insert" => mm[op.k] = Absent     \* insert is documented for absent keys only
+  \* init_list: the map is constructed anew from an initializer list holding keys 0..k-1 (only modelled for a still empty map)
+  /\ op.name = "init_list" => (Present(mm) = {} /\ \A j \in 0..(op.k - 1) : j \in DOMAIN mm)
 Eff(op, mm) ==
   CASE op.name = "insert" -> [mm EXCEPT ![op.k] = Val(op.k)]
     [] op.name = "index" -> IF mm[op.k] = Absent THEN [mm EXCEPT ![op.k] = Default] ELSE mm
     [] op.name = "index_set" -> [mm EXCEPT ![op.k] = Val(op.k)]
     [] op.name = "remove" -> [mm EXCEPT ![op.k] = Absent]
     [] op.name = "get" -> mm
+    [] op.name = "init_list" -> [j \in DOMAIN mm |-> IF j < op.k THEN Val(j) ELSE Absent]
 \* what the call returns: the value (index, get, remove) or Absent
 Result(op, mm) ==
   CASE op.name = "index" -> IF mm[op.k] = Absent THEN Default ELSE mm[op.k]
